@@ -6,6 +6,8 @@ import CCVerif.Lemmas.RSModelGenFrag
 import CCVerif.Lemmas.RSModelGenSim
 import CCVerif.Lemmas.EvaluatorAnalysis
 import CCVerif.Lemmas.CheckerEvaluatorRen
+import CCVerif.Lemmas.EvaluatorRenameTop
+import CCVerif.Lemmas.EvaluatorRenameCex
 /-!
 # C11 — a model never shows a calculated value that is stale w.r.t. current data
 -/
@@ -493,5 +495,82 @@ theorem fresh_checker_evaluator_rename_example :
     evalC 10 (fun m => if m = "X2" then some (.s [.e 1, .e 2]) else none)
       ⟨2, "D5", .term, some (un (glob "X2") (glob "X2"))⟩ = some (.s [.e 1, .e 2]) := by
   decide +kernel
+
+end CCVerif.RSModelGen
+
+/-! # The evaluator law, proved (prover-C11s)
+
+`evaluator_rename_statement` quantifies over EVERY `NameBij` that fixes the radicals; such a bijection may move
+strings that are not names at all (e.g. exchange the global token `XY` with the local spelling `aB`), and then the
+name collector — ONE slot table for local and global spellings — identifies the two. The renamings that occur
+(`checker_carrier`: `NameBij.ofMap`, a product of transpositions of good names) move GOOD NAMES ONLY. For those the
+law is proved: the normaliser commutes with the renaming of the global tokens (`Eval.normalizeTree_renAst`), name
+collector and interpreter are invariant under a bijective renaming of all spellings (`Eval.evalNorm_ren`: same slots,
+same data, same iteration counter, values compared by content). The one remaining hypothesis is decidable and
+spelling-only: no local variable of the NORMALISED tree is spelled like a good global name (`normLocalsOK`; the
+lexer's `local_id` starts with `_` or a lower-case letter, generated names with `@` — not derived from `Wf.wf`
+here). -/
+namespace CCVerif.RSModelGen
+open CCVerif.SchemaGen (checkerR CDef CInfo checkerR_lawful glob Cst)
+
+/-- **the statement `evaluator_rename_statement` (EVERY `NameBij` that fixes the radicals) is false in the model**:
+the transposition `XY ↔ aB` of a `global_id` spelling and a `local_id` spelling, both not blocks, is such a
+bijection; on `D{aB∈XY | aB=aB}` the renamed global token and the bound variable share one slot of the name
+collector (`{1,2}` becomes `∅`). Not a defect of the code: no renaming of the machine moves anything but good names
+(`checker_carrierG`), and for those the law holds (`evaluator_rename_partial1`). -/
+theorem evaluator_rename_counterexample' : ¬ evaluator_rename_statement 10 := evaluator_rename_counterexample
+
+/-- what is left of the evaluator law: `normLocalsOK` follows from the carrier (`cstShaped`: every `ID_LOCAL` text
+lexes as `local_id`; the normaliser only adds names that start with `@`) -/
+def normLocals_statement : Prop := ∀ (fuel : Nat) (c : Cst CDef), cstShaped c → normLocalsOK fuel c = true
+
+/-- **the evaluator law of C11** (`evaluator_rename_statement` for the renamings that occur): for a `NameBij` that
+moves good names only, a constituent of the carrier whose normalised tree has no local variable spelled like a good
+name and two data contexts related by the bijection on the mentioned names, `Interpreter::Evaluate` gives the
+renamed constituent the value it gives the constituent -/
+theorem evaluator_rename_partial1 (fuel : Nat) (n : Checker.NameBij)
+    (hfix : ∀ s, ¬ Checker.GoodName s → n.b.f s = s) (ctx ctx' : String → Option Eval.Val) (c : Cst CDef)
+    (v : Eval.Val) (hs : cstShaped c) (hl : normLocalsOK fuel c = true)
+    (hctx : ∀ m ∈ SchemaGen.mentionsOf c.defn, ∀ x, ctx m = some x → ctx' (n.b.f m) = some x)
+    (he : evalC fuel ctx c = some v) :
+    evalC fuel ctx' (SchemaGen.renCstC (Checker.CRen.ofNameBij n) c) = some v :=
+  evaluator_rename_partial fuel n hfix ctx ctx' c v hs hl hctx he
+
+/-- **C11 for the type-checker model and the evaluator model, histories WITH `SetAliasFor(…, substitute = true)` and
+`SubstitueAliases`, NO open law** (part: `SetAliasFor(…, substitute = false)` excluded — `NoPlainRename`; the
+carrier also asks `normLocalsOK`, decidable). For constant traits whose keys are not good names, every fuel, every
+admissible history of insertions, erasures, definition edits, `UpdateState`, data edits, `Calculate`,
+`RecalculateAll` and renamings with substitution along which every stored constituent is in the carrier: every term
+that reports a calculated value reports the value a full re-analysis and recalculation gives. -/
+theorem fresh_checker_evaluator_partial3 (traits : Types.TraitEnv) (hT : TraitsApart traits) (fuel : Nat)
+    (ops : List (Op CDef Eval.Val))
+    (ha : AdmissibleAllFrom (checkerR fun _ => traits) (evaluatorE fuel) {} ops)
+    (hnp : ∀ op ∈ ops, NoPlainRename op)
+    (hP : ∀ k, ∀ c ∈ (run (checkerR fun _ => traits) (evaluatorE fuel) (ops.take k)).sch.store, cstShapedN fuel c) :
+    (run (checkerR fun _ => traits) (evaluatorE fuel) ops).Fresh (checkerR fun _ => traits) (evaluatorE fuel) :=
+  (Inv.run_on (checkerR_lawful _) (evaluatorE_lawfulR traits fuel) (SchemaGen.checkerEquivariance fun _ => traits)
+    (evalEquivarianceG traits fuel) (checker_carrierG traits hT fuel) ha hnp hP).fresh (checkerR_lawful _)
+    (evaluatorE_lawfulR traits fuel)
+
+/-! non-vacuity: the renaming history `histEvalRen` meets every hypothesis (admissible, no plain rename: above) -/
+theorem histEvalRen_shapedN : ∀ k, ∀ c ∈ (run (checkerR fun _ => []) (evaluatorE 10) (histEvalRen.take k)).sch.store,
+    cstShapedN 10 c := by
+  intro k
+  by_cases hk : k < 8
+  · have h : ∀ k ∈ List.range 8, ∀ c ∈ (run (checkerR fun _ => []) (evaluatorE 10) (histEvalRen.take k)).sch.store,
+        cstShapedN 10 c := by decide +kernel
+    exact h k (List.mem_range.2 hk)
+  · rw [List.take_of_length_le (by simp only [histEvalRen, List.length_cons, List.length_nil]; omega)]
+    decide +kernel
+
+/-- a definition with a bound variable and a tuple pattern is in the carrier: `D{(a,b)∈X1×X1 | a=b}` -/
+example : cstShapedN 10 ⟨2, "D1", .term, some (.node .NT_DECLARATIVE_EXPR .none 0 0
+    [.node .NT_TUPLE_DECL .none 0 0 [.node .ID_LOCAL (.text "a") 0 0 [], .node .ID_LOCAL (.text "b") 0 0 []],
+     .node .DECART .none 0 0 [glob "X1", glob "X1"],
+     .node .EQUAL .none 0 0 [.node .ID_LOCAL (.text "a") 0 0 [], .node .ID_LOCAL (.text "b") 0 0 []]])⟩ := by
+  decide +kernel
+
+example : (run (checkerR fun _ => []) (evaluatorE 10) histEvalRen).Fresh (checkerR fun _ => []) (evaluatorE 10) :=
+  fresh_checker_evaluator_partial3 [] (by decide) 10 histEvalRen (by decide +kernel) (by decide) histEvalRen_shapedN
 
 end CCVerif.RSModelGen
